@@ -132,6 +132,29 @@ Definition cr_key_frame :=
   u64 ** u64 ** u64 ** u64 **          (* DestroyedAmount CirculationAmount AppropriationAmount CommitteeUsedAmount *)
   u32 ** u32.                          (* CRAssetsAddressUTXOCount CurrentWithdrawFromSideChainIndex *)
 
+(* cr/state.Candidate: Info (unsigned), State, Votes, RegisterHeight,
+   CancelHeight, DepositHash *)
+Definition cr_candidate := cr_info_unsigned ** u8 ** u64 ** u32 ** u32 ** h168.
+
+Definition candidates := m168 cr_candidate.
+
+(* cr/state.DepositInfo: DepositAmount, Penalty, TotalAmount *)
+Definition deposit_info := u64 ** u64 ** u64.
+
+(* cr/state.StateKeyFrame, all 14 fields in wire order *)
+Definition cr_state_key_frame :=
+  smap h168 **                           (* CodeCIDMap *)
+  m168 h168 **                           (* DepositHashCIDMap *)
+  candidates **                          (* Candidates *)
+  c_map ord_N c_varuint candidates **    (* HistoryCandidates, uint64 key as a varint *)
+  m168 deposit_info **                   (* DepositInfo *)
+  c_varuint **                           (* CurrentSession *)
+  sset ** sset **                        (* Nicknames Votes *)
+  smap u64 ** smap u64 ** smap u64 **    (* DepositOutputs CRCFoundationOutputs CRCCommitteeOutputs *)
+  m168 (c_list votes_lock) **            (* UsedCRVotes *)
+  m168 (c_list votes_lock) **            (* UsedCRImpeachmentVotes *)
+  m168 (c_list votes_lock).              (* UsedCRCProposalVotes *)
+
 (* Restart: the state a node continues from after loading a checkpoint. *)
 Definition restore {S} (c : codec S) (wire : bytes) : option S :=
   match dec c wire with Some (s, []) => Some s | _ => None end.
